@@ -2,6 +2,7 @@ import AthlibVerif.Props.C02
 import AthlibVerif.Lemmas.RankOrder
 import AthlibVerif.Lemmas.Interleave
 import AthlibVerif.Lemmas.CardLog
+import AthlibVerif.Lemmas.RoundRobin
 /-!
 # C08 — High jump: replaying the log or the card, in any jumping order, rebuilds it
 
@@ -194,6 +195,60 @@ theorem C08_log_bibs_registered (c : Comp) (h : Reachable c) (b : Nat) (t : Tria
   have := (cardLog_reachable c h).1 b t hm
   obtain ⟨j, hj, rfl⟩ := List.mem_map.1 this
   rw [find_of_mem c (good_reachable c h).wf.1 j hj]; rfl
+
+theorem thread_eq_marks (b : Nat) (l : List Op) : thread b l = (marksOf b l).map (Op.trial b) := by
+  unfold thread marksOf
+  induction l with
+  | nil => rfl
+  | cons op rest ih =>
+    cases op with
+    | add x =>
+      have ha : bibOf (Op.add x) = none := rfl
+      simp only [List.filter_cons, List.filterMap_cons, ha]; simpa using ih
+    | bar x =>
+      have ha : bibOf (Op.bar x) = none := rfl
+      simp only [List.filter_cons, List.filterMap_cons, ha]; simpa using ih
+    | trial b' t =>
+      simp only [List.filter_cons, List.filterMap_cons, bibOf_trial]
+      by_cases e : b' = b
+      · subst e; simp [ih]
+      · have h1 : (some b' == some b) = false := by simpa using e
+        have h2 : (b' == b) = false := by simpa using e
+        simp only [h1, h2, Bool.false_eq_true, if_false]
+        exact ih
+
+/-- **The card import's replay order is harmless**: a block of trials at one height, replayed "attempt 1 of
+    everybody in card order, then attempt 2, then attempt 3" (`roundRobin`, the loop of `from_matrix`) instead of in
+    the recorded order, is accepted in full whenever the recorded order was, and whatever follows ends in the same
+    state, heights, cards, bests and places. -/
+theorem C08_round_robin_import (pre seg post : List Op) (order : List Nat) (hn : order.Nodup)
+    (htr : ∀ op ∈ seg, ∃ b t, op = Op.trial b t)
+    (hin : ∀ b t, Op.trial b t ∈ seg → b ∈ order)
+    (hlen : ∀ b, (marksOf b seg).length ≤ 3)
+    (hacc : acceptedFrom {} (pre ++ seg) = pre ++ seg) :
+    acceptedFrom {} (pre ++ roundRobin order (fun b => marksOf b seg)) = pre ++ roundRobin order (fun b => marksOf b seg) ∧
+    obs (runFrom {} (pre ++ seg ++ post)) = obs (runFrom {} (pre ++ roundRobin order (fun b => marksOf b seg) ++ post)) := by
+  have hth : ∀ b, thread b seg = thread b (roundRobin order (fun b => marksOf b seg)) := by
+    intro b
+    rw [thread_roundRobin order _ hn b (hlen b), thread_eq_marks]
+    split
+    · rfl
+    · next hb =>
+      have : marksOf b seg = [] := by
+        apply marksOf_nil_of_absent
+        intro t ht
+        exact hb (hin b t ht)
+      rw [this]; rfl
+  have hperm := perm_of_threads seg _ htr (roundRobin_trials order _) hth
+  apply C08_interleaving pre seg _ post htr hperm ?_ hacc
+  intro b
+  have := hth b
+  unfold thread at this
+  have hfun : (fun op => bibOf op == some b) =
+      (fun op => match op with | Op.trial b' _ => b' == b | _ => false) := by
+    funext op
+    cases op <;> simp [bibOf]
+  rw [hfun] at this; exact this
 
 /-! non-vacuity (kernel-evaluated): a history with refused calls; its log replays to the same state -/
 example : (runFrom {} [.add 1, .bar 0, .bar 105, .trial 1 .o, .trial 1 .o, .add 2]).log =
